@@ -138,6 +138,9 @@ class StmtMixin:
             if isinstance(v, tuple): raise Undecided('untyped list of lists')
             if isinstance(v, VNone) and dk == 'ref': v = VRef(NULL)          # declared: None | object reference
             if isinstance(v, (VNone, VInt)) and dk == 'optint': v = VOpt(self.toopt(v))
+            if dk == ('list', ('list', 'tok')) and isinstance(v, VList) and v.kind == 'strline' and z3.is_K(v.arr) \
+                    and z3.simplify(StrLine.tpl(v.arr.arg(0)) == 0).eq(z3.BoolVal(True)):
+                v = VList(v.len, z3.K(I, empty_list('tok').term()), ('list', 'tok'))          # [''] * n declared as a list of (empty) token lines
             if dk == 'linetoks' and isinstance(v, VStr):      # declared: one line assembled token by token (models_text)
                 from .models_text import line_tokens_append
                 v = line_tokens_append(self, empty_list('tok'), v, p, line)
@@ -250,11 +253,17 @@ class StmtMixin:
         if isinstance(cur, VExt) and cur.tag == 'LpProblem' and isinstance(s.op, ast.Add):
             self.lp_add_impl(self, r, p, s.lineno)
             return [('normal', p, None)]
+        TOKLINES = ('list', ('list', 'tok'))
         if isinstance(s.target, ast.Name) and self.contract.get('locals', {}).get(s.target.id) == 'linetoks' and isinstance(cur, VList) and cur.kind == 'tok' \
                 and isinstance(s.op, ast.Add) and isinstance(r, VStr):
             from .models_text import line_tokens_append
             in_loop = any(s is n for lp in ast.walk(self.fn.node) if isinstance(lp, (ast.For, ast.While)) for n in ast.walk(lp))
             v = line_tokens_append(self, cur, r, p, s.lineno, in_loop)
+        elif isinstance(s.target, ast.Subscript) and isinstance(s.target.value, ast.Name) and self.contract.get('locals', {}).get(s.target.value.id) == TOKLINES \
+                and isinstance(cur, VList) and cur.kind == 'tok' and isinstance(s.op, ast.Add) and (isinstance(r, VStr) or (isinstance(r, VList) and r.kind == 'tok')):
+            # an element of a declared list of token lines (listing view): lines[i] += piece
+            from .models_text import line_tokens_append
+            v = line_tokens_append(self, cur, r, p, s.lineno, True, listing=True)
         elif isinstance(cur, VText) and isinstance(s.op, ast.Add) and isinstance(r, VStr):
             from .models_text import text_append
             v = text_append(self, cur, r, p, s.lineno)
